@@ -502,7 +502,41 @@ func ExecDispose(c DCase) *DRun {
 			fail("Eval whose function disposes: %s", r)
 		}
 	case "during-queue":
-		// a caller is parked inside processQueue; Dispose lands from another goroutine
+		// a caller is parked inside processQueue; Dispose lands from another goroutine. Without
+		// handlers (one mutation, nothing nested) the scenario is a schedule of the Lean model Am.DP
+		// (caller 0 parked at the stage's program counter, disposer 1): replayed there
+		var inTx, started atomic.Int32
+		var overlap atomic.Bool
+		m.BindTracer(&spanTracer{TracerNoOp: &am.TracerNoOp{Id: "verif-span"}, n: &inTx, over: &overlap, started: &started})
+		pcOfStage := map[string]string{"qm:appended": "pre", "pq:preOk": "cas", "pq:casOk": "loop", "pq:shifted": "running",
+			"pq:loopExit": "release", "pq:released": "recheck"}
+		bi := func(b bool) int {
+			if b {
+				return 1
+			}
+			return 0
+		}
+		script := !c.Handlers && pcOfStage[c.Stage] != ""
+		observe := func(line, pc, lock, disposed, st, rn, body string) {
+			if lock == "" {
+				lock = fmt.Sprint(bi(am.VerifQueueProcessing(m)))
+			}
+			if disposed == "" {
+				disposed = fmt.Sprint(bi(m.IsDisposed()))
+			}
+			if st == "" {
+				st = fmt.Sprint(started.Load())
+			}
+			if rn == "" {
+				rn = fmt.Sprint(inTx.Load())
+			}
+			if body == "" {
+				body = fmt.Sprint(dh1.Load())
+			}
+			run.Lines = append(run.Lines, line)
+			run.Obs = append(run.Obs, fmt.Sprintf("pc=%s lock=%s disposing=%d disposed=%s q=%d started=%s running=%s body=%s", pc,
+				lock, bi(am.VerifDisposing(m)), disposed, m.QueueLen(), st, rn, body))
+		}
 		parkAt.Store(c.Stage)
 		callerDone = make(chan struct{})
 		go func() {
@@ -513,9 +547,52 @@ func ExecDispose(c DCase) *DRun {
 		}()
 		select {
 		case <-parked:
+			if script {
+				started.Store(0)
+				if c.Stage == "pq:loopExit" || c.Stage == "pq:released" {
+					started.Store(1)
+				}
+				run.Lines = append(run.Lines, "dp init 1", "dp spawn caller", "dp spawn dispose")
+				run.Obs = append(run.Obs, "ok", "thread=0", "thread=1")
+				if c.Stage == "pq:shifted" {
+					// shifted, the transition not created yet: the model starts it in the same step
+					observe("dp run 0 running", "running", "", "", "*", "*", "")
+				} else {
+					observe("dp run 0 "+pcOfStage[c.Stage], pcOfStage[c.Stage], "", "", "", "", "")
+				}
+			}
 			m.Dispose()
 			time.Sleep(20 * time.Millisecond)
+			if script {
+				// the disposal has been flagged; how far doDispose has got by now is up to the timers
+				st := ""
+				if c.Stage == "pq:shifted" {
+					st = "*"
+				}
+				observe("dp run 1 wait", "wait", "", "*", st, st, "*")
+			}
 			close(release)
+			if script {
+				select {
+				case <-callerDone:
+				case <-time.After(wait):
+				}
+				select {
+				case <-m.WhenDisposed():
+				case <-time.After(wait):
+				}
+				st := ""
+				if c.Stage == "pq:shifted" {
+					// the shifted mutation is dropped when disposal is already flagged (newTransition is
+					// not reached): not a transition the tracer sees
+					st = "*"
+				}
+				if overlap.Load() {
+					fail("two transitions of one machine ran at the same time around a Dispose that landed at %s", c.Stage)
+				}
+				observe("dp run 0 done", "done", "*", "*", st, "0", "*")
+				observe("dp run 1 done", "done", "*", "", st, "0", "")
+			}
 		case <-time.After(time.Second):
 			// the point was not reached (nothing to park on): plain dispose
 			m.Dispose()
@@ -1060,6 +1137,11 @@ func RunDispose(seed int64, per int, outDir, prop string, corpus []string) (case
 	for g := 1; g <= 2; g++ {
 		all = append(all, DCase{N: 3, Handlers: true, Trigger: "idle-parent", Graceful: g, Tag: "idle-parent-graceful",
 			Subs: []string{"when:1", "whenticks:0", "whennot:0", "statectx:0", "whenargs:2"}, Pre: []Op{{Kind: "add", States: []int{0}}}})
+	}
+	// a caller parked at every stage of processQueue when Dispose lands (schedules of Am.DP)
+	for _, st := range queueStages {
+		all = append(all, DCase{N: 3, Handlers: false, Trigger: "during-queue", Stage: st, Tag: "during-queue-proto",
+			Subs: []string{"when:1", "whenticks:0", "whenqueueends:1"}, Pre: []Op{{Kind: "add", States: []int{0}}}})
 	}
 	for _, tr := range Triggers {
 		n := per
